@@ -121,7 +121,7 @@ func VP_C14_scanstep() {
 	vpObserve("scan", int(tok), start, tpos, end)
 	vpAssert("C14/scanstep/starts-where-previous-ended", start == p)
 	vpAssert("C14/scanstep/ordered", start <= tpos && tpos <= end && end <= L)
-	vpAssert("C14/scanstep/returns-current-token", tok == s.GetToken() || (tok == SK_NumberLiteral))
+	vpAssert("C14/scanstep/returns-current-token", tok == s.GetToken())
 	if tok == SK_EndOfFile {
 		vpAssert("C14/scanstep/eof-at-end", tpos == L && end == L)
 	} else {
